@@ -407,6 +407,12 @@ func main() {
 	wide := 0
 	for i := 0; i < n; i++ {
 		for {
+			if rng.Chance(4) {
+				if runCase(out, fmt.Sprintf("p%d", i), lib.GenSharedClauseCase(rng)) {
+					break
+				}
+				continue
+			}
 			tc := lib.GenTravGraph(rng)
 			sg := &lib.SelGen{R: rng, Cids: tc.AllCids(), Keys: tc.AllKeys(), MaxDepth: 1 + rng.Intn(5), BadPct: 3, BareEdgePct: 8}
 			tc.Sel = sg.Top()
